@@ -968,6 +968,32 @@ pub fn run(ctx: &mut Ctx) {
     }
     ctx.exhaustive("every PRIORITY weight 0..=255 x exclusive bit x 3 (stream, dependency) pairs");
 
+    // X1b: a frame of (nearly) the largest legal size, 16370..=16384 octets of payload, in front of
+    // or between the frames that matter: DATA, an extension type, a full-size SETTINGS
+    for len in 16370..=16384usize {
+        for (k, t) in [0u8, 0x0b, 0x09].iter().enumerate() {
+            each!(
+                {
+                    let mut v = if len % 2 == 0 { g::PREFACE.to_vec() } else { Vec::new() };
+                    let big = g::frame(*t, 0, 1, &vec![0x42; len]);
+                    let prof = PROFILES[(len + k) % PROFILES.len()];
+                    if k == 1 {
+                        v.extend_from_slice(&big);
+                    }
+                    v.extend_from_slice(&g::settings(prof.1));
+                    if k != 1 {
+                        v.extend_from_slice(&big);
+                    }
+                    v.extend_from_slice(&g::window_update(0, prof.2));
+                    v.extend_from_slice(&g::priority(3, PrioritySpec { exclusive: false, dependency: 0, weight: 200 }));
+                    v
+                },
+                "boundary-size-frame",
+                0
+            );
+        }
+    }
+
     // X2: every pseudo-header order x every HEADERS framing variant
     let names = [":method", ":path", ":authority", ":scheme"];
     for p in permutations(4) {
